@@ -3,7 +3,7 @@
    (Cred/Roaring.v); zlib is the only assumed layer: zc / zd with
      Z1 zd (zc b) = Some b   Z2 zc b starts 0x78 0x9C   Z3 zc b is bytes   (all for byte strings b)   Z4 zd yields bytes. *)
 From Coq Require Import List NArith Bool.
-From IdV Require Import Lib.Base64 Doc.Doc Cred.Bitmap Cred.Roaring Proofs.Base64Proofs Proofs.BitmapProofs Proofs.RoaringProofs Proofs.BitmapCodecProofs.
+From IdV Require Import Lib.Base64 Doc.Doc Cred.Bitmap Cred.Roaring Cred.BitmapStatus Proofs.Base64Proofs Proofs.BitmapProofs Proofs.RoaringProofs Proofs.BitmapCodecProofs Proofs.BitmapStatusProofs.
 Import ListNotations.
 Open Scope N_scope.
 
@@ -63,6 +63,26 @@ Theorem C06_update_frame :
   forall sv, In sv d -> qmatches q (bs_id sv) = false -> In sv d'.
 Proof. exact update_frame. Qed.
 Print Assumptions C06_update_frame.
+
+(* third clause: the credentialStatus entry.  try_from accepts exactly the entries of the right type whose revocationBitmapIndex is a
+   string that u32::from_str reads and whose every "index" query value reads as the same number *)
+Theorem C06_status_entry_accepts_exactly : forall st n, status_try_from st = Some n <->
+  bst_type_ok st = true /\ exists s, bst_prop st = IpStr s /\ parse_u32 s = Some n /\ forall v, In v (bst_query_index st) -> parse_u32 v = Some n.
+Proof. exact status_try_from_spec. Qed.
+Print Assumptions C06_status_entry_accepts_exactly.
+(* every 32-bit index printed by to_string is read back by from_str; an entry built by RevocationBitmapStatus::new is accepted with its index *)
+Theorem C06_status_new_accepted : forall n, n < 4294967296 -> parse_u32 (print_u32 n) = Some n /\ status_try_from (status_new n) = Some n.
+Proof. intros n H. split; [apply parse_print; exact H|apply status_new_accepted; exact H]. Qed.
+Print Assumptions C06_status_new_accepted.
+(* an accepted entry whose id is a DID URL is reported revoked exactly when its index is a member of the bitmap the service holds,
+   valid exactly when it is not; an entry that is not accepted (or whose id is no DID URL) is an invalid status, never "valid" *)
+Theorem C06_status_revoked_iff_member : forall st bm n, status_try_from st = Some n ->
+  (status_check st true bm = 1 <-> In n bm) /\ (status_check st true bm = 0 <-> ~ In n bm).
+Proof. exact status_check_revoked_iff. Qed.
+Print Assumptions C06_status_revoked_iff_member.
+Theorem C06_status_refused_is_invalid : forall st id_ok bm, status_try_from st = None \/ id_ok = false -> status_check st id_ok bm = 2.
+Proof. exact status_check_invalid. Qed.
+Print Assumptions C06_status_refused_is_invalid.
 
 (* the assumptions about zlib can be met together (a stored stand-in): the statements above are not vacuous *)
 Theorem C06_assumptions_satisfiable :
